@@ -21,4 +21,20 @@ PROPS = {
  "C20": dict(driver="crashsim", budget=dict(quick=75, thorough=1500), chunk=8, rule=CRASH_RULE,
              technique="deterministic simulation: nested crash injection inside the recovery run's own I/O trace",
              assumptions=["same crash model as C01", "only images whose single-crash recovery is already correct are nested, so a C20 violation is a failure that needs the second crash"]),
+
 }
+SQL_RULE = ("one evaluation = one seeded sequential history against the real engine and the reference model: swarm-drawn schemas "
+            "(int/float/varchar columns, 1-2 tables + tables created later), pool size, row widths, transactions with aborts, "
+            "statistics refreshes, forced checkpoints, clean shutdown/reopen and crash-style stop/reopen at quiescent points; at "
+            "every quiescent point the seam monitors run (heap vs model, catalog identity, M-IDX index vs heap for every key and a "
+            "full ordered scan, M-PAGE layout of every heap page, M-PIN pin vector around every statement). distinct = distinct "
+            "signature (sequence of op kinds, statement kinds and per-op outcomes); non-trivial = at least one statement or commit executed")
+for _p, _b, _t in [("C03", 60, "abort oracle: observable state (full scans, index point and range queries) before begin vs after abort"),
+                   ("C07", 60, "seam monitor M-IDX at quiescent points of simulated histories with aborts and restarts"),
+                   ("C09", 60, "clean shutdown/reopen injected at quiescent points; query battery before vs after vs model"),
+                   ("C10", 60, "DDL interleaved with DML and clean/crash restarts; catalog identity and per-table contents"),
+                   ("C14", 60, "seam monitor M-PIN: pin vector before/after every statement (success, refusal, abort)")]:
+    PROPS[_p] = dict(driver="sqlsim", budget=dict(quick=_b, thorough=1200), chunk=40, rule=SQL_RULE,
+                     technique="deterministic simulation (sequential driver, restart fault injection) with reference model: " + _t,
+                     assumptions=["single driver: statements of different transactions interleave at statement granularity only (sub-statement interleavings are the consim checks)",
+                                  "multi-row VALUES lists and parenthesised predicates are not accepted by the SQL front end and are not generated"])
